@@ -18,7 +18,7 @@ EXPLANATION = (
     '(up to the bound) of connects, disconnects, name requests, unicasts of all four types with forged senders, bus calls and '
     'broadcast signals: delivery to the current owner only, per-pair order, bus-addressed calls answered and not '
     'forwarded, broadcasts reach exactly the holders of a matching rule.')
-BOUNDS = {'quick': 'route: 4 types x 2 addressing modes x 3 forged-sender choices, symbolic serial/flags/body; hist: <= 3 events over 3 clients (21 event kinds)',
+BOUNDS = {'quick': 'route: 4 types x 2 addressing modes x 5 forged-sender choices (none, own unique name, the unique name of another client, a well-known name the originator owns, one it waits for), symbolic serial/flags/body; hist: <= 3 events over 3 clients (21 event kinds)',
           'thorough': 'hist: <= 4 events'}
 ASSUMPTIONS = ['authentication is skipped (C06): the protocol objects are put in authenticated state directly',
                'hist is selector-driven (exhaustive within the bound); interleavings of partial reads are C04\'s subject']
@@ -29,7 +29,7 @@ def obligations(tier):
     obs = []
     for mt in (1, 2, 3, 4):
         for byname in (False, True):
-            for forged in (0, 1, 2):
+            for forged in (0, 1, 2, 3, 4):
                 obs.append(Ob('route:t%d:%s:forge%d' % (mt, 'name' if byname else 'unique', forged), 'route',
                               {'mt': mt, 'byname': byname, 'forged': forged}, timeout=600, path_timeout=60,
                               twin=(forged == 0), functions=FUNCS, bounds='serial u32, flags 0..3, body u32 symbolic'))
@@ -172,8 +172,17 @@ def build(family, p):
                     b.dataReceived(rq.rawMessage)
                 for x in (a, b, c):
                     w.drain(x)
+                if forged >= 3:
+                    # the originator owns one well-known name and waits for another
+                    for nm in ('org.t.Mine', WK):
+                        message.DBusMessage._nextSerial = 6
+                        rq = message.MethodCallMessage('/org/freedesktop/DBus', 'RequestName', interface='org.freedesktop.DBus',
+                                                       destination='org.freedesktop.DBus', signature='su', body=[nm, 0])
+                        a.dataReceived(rq.rawMessage)
+                    for x in (a, b, c):
+                        w.drain(x)
             dest = WK if byname else b.uniqueName
-            fake = [None, a.uniqueName, c.uniqueName][forged]
+            fake = [None, a.uniqueName, c.uniqueName, 'org.t.Mine', WK][forged]
             m = _mk(message, mt, dest, fake, serial, flags if mt == 1 else 0, val)
             a.dataReceived(m.rawMessage)
             gb, gc, ga = w.drain(b), w.drain(c), w.drain(a)
